@@ -178,6 +178,7 @@ pub fn intent_str(i: &Intent) -> String {
         Intent::Stop => "stop".into(),
         Intent::WaitBestmove => "<wait for bestmove>".into(),
         Intent::WaitPolls(n) => format!("<wait {n} polls>"),
+        Intent::Raw(l) => l.clone(),
         Intent::Quit => "quit".into(),
     }
 }
@@ -195,6 +196,175 @@ pub fn run_c05(ctx: &Ctx, run: u64) -> RunReport {
     rep
 }
 
+
+// =================================================================================================
+// property-specific judgement of an executed scenario (shared by the workloads and by replay)
+// =================================================================================================
+
+/// Adds the findings only this property's oracle can make.  Returns a property-specific count
+/// (C14: clock tuples checked).
+pub fn judge_a(ctx: &Ctx, _sc: &ScenarioA, out: &mut OutcomeA, agg: &mut Agg) -> u64 {
+    match ctx.property.as_str() {
+        "C13" => {
+            judge_c13(out);
+            0
+        }
+        "C14" => judge_c14(out, agg),
+        "C09" => {
+            judge_c09_a(out);
+            0
+        }
+        _ => 0,
+    }
+}
+
+pub fn judge_b(ctx: &Ctx, sc: &ScenarioB, out: &mut OutcomeB) {
+    match ctx.property.as_str() {
+        "C04" => {
+            // a depth-limited search (depth <= 6) that exhausted the budget did not terminate
+            if let (Some(i), Some(msg)) = (out.failed_step, out.inconclusive.clone()) {
+                if let Some(st) = sc.steps.get(i) {
+                    if st.go.depth.map(|d| d <= 6).unwrap_or(false) && !st.go.timed() && st.stop_at_poll.is_none() {
+                        out.found.push(Found {
+                            class: "non-termination".into(),
+                            message: format!("`{}` in {} (after {} moves) did not finish within {} nodes: {msg}", st.go.line(), st.fen, st.moves.len(), NON_TERMINATION_NODES),
+                            signature: "non-termination depth-limited".into(),
+                        });
+                        out.inconclusive = None;
+                    }
+                }
+            }
+        }
+        "C09" => {
+            // the cancellation must take effect at the poll at which the flag first reads true
+            for t in &out.steps {
+                let Some(st) = sc.steps.get(t.index) else { continue };
+                if let (Some(k), false) = (st.stop_at_poll, st.go.timed()) {
+                    let seen_at = t.rec.first_stop.map(|p| p.0).or(t.rec.forced_at.map(|p| p.0));
+                    if let Some(p) = seen_at {
+                        if p != k {
+                            out.found.push(Found { class: "stop-late".into(), message: format!("search #{}: flag true from poll {k} on, the search reacted at poll {p}", t.index), signature: "stop-late".into() });
+                            break;
+                        }
+                    }
+                }
+            }
+            out.found = retag_for_c09(std::mem::take(&mut out.found), 0);
+        }
+        _ => {}
+    }
+}
+
+fn judge_c13(out: &mut OutcomeA) {
+    // the engine must advertise its spin options, and must not reject an in-range value
+    if out.harness_error.is_none() {
+        if out.spin_options.is_empty() && !out.found.iter().any(|f| f.class == "panic" || f.class == "deadlock") {
+            out.found.push(Found { class: "options-not-advertised".into(), message: "no `option name … type spin …` line after `uci`".into(), signature: "options-not-advertised".into() });
+        }
+        let rejected = out.stderr.iter().chain(out.transcript.iter()).find(|l| l.contains("Unable to set") || l.contains("Invalid value"));
+        let exit_msg = match &out.main_result {
+            Some(Err(e)) if e.contains("Unable to set") || e.contains("Unknown option") => Some(e.clone()),
+            _ => None,
+        };
+        if let Some(m) = rejected.cloned().or(exit_msg) {
+            out.found.retain(|f| f.class != "engine-exit");
+            out.found.push(Found { class: "option-rejected".into(), message: format!("an advertised in-range value was rejected: {m}"), signature: "option-rejected".into() });
+        }
+    }
+}
+
+fn judge_c14(out: &mut OutcomeA, agg: &mut Agg) -> u64 {
+    let mut tuples = 0u64;
+    let mut flag_checked = 0u64;
+    let mut assumption_void = 0u64;
+    if out.harness_error.is_none() {
+        for g in &out.gos {
+            let Some(rec) = out.searches.get(g.ordinal) else {
+                out.found.push(Found { class: "limits-missing".into(), message: format!("no limits were computed for `{}`", g.spec.line()), signature: "limits-missing".into() });
+                break;
+            };
+            let white = g.fen.split_whitespace().nth(1) != Some("b");
+            let lim = &rec.limits;
+            let clocks = g.spec.wtime.is_some() || g.spec.btime.is_some();
+            if clocks {
+                tuples += 1;
+                // what the GUI sent for the side to move (absent = no time)
+                let r_ms = if white { g.spec.wtime } else { g.spec.btime }.unwrap_or(0);
+                let r_ns = r_ms as u128 * 1_000_000;
+                let ov_ns = lim.overhead_ns as u128;
+                if ov_ns * 2 <= r_ns && g.spec.movestogo.map(|m| m >= 1).unwrap_or(true) {
+                    let cap = (r_ns - ov_ns) / 2;
+                    let tol = cap / 1_000_000 + 1_000; // f32 rounding of Duration::mul_f32, plus 1 µs
+                    if lim.hard_ns as u128 > cap + tol {
+                        out.found.push(Found {
+                            class: "limit-hard-exceeds-half".into(),
+                            message: format!("`{}` with Move Overhead {} ms ({} to move): hard limit {} ns exceeds half of the remaining time after overhead ({} ns)",
+                                g.spec.line(), lim.overhead_ns / 1_000_000, if white { "white" } else { "black" }, lim.hard_ns, cap),
+                            signature: "limit-hard-exceeds-half".into(),
+                        });
+                    }
+                    if lim.soft_ns > lim.hard_ns {
+                        out.found.push(Found {
+                            class: "limit-soft-exceeds-hard".into(),
+                            message: format!("`{}` with Move Overhead {} ms: soft limit {} ns exceeds hard limit {} ns", g.spec.line(), lim.overhead_ns / 1_000_000, lim.soft_ns, lim.hard_ns),
+                            signature: "limit-soft-exceeds-hard".into(),
+                        });
+                    }
+                }
+                // (2) flag fall
+                if r_ms >= 200 && !g.stopped_by_gui {
+                    if let Some(ans) = g.answered_ns {
+                        let used = ans.saturating_sub(rec.epoch_ns) as u128;
+                        // the promise is made under the stated environment assumption only
+                        if (rec.max_poll_gap_ns as u128) * 4 <= r_ns {
+                            flag_checked += 1;
+                            if used >= r_ns {
+                                out.found.push(Found {
+                                    class: "flag-fall".into(),
+                                    message: format!("`{}` in {}: bestmove after {} ms of simulated time, the clock had {} ms (largest gap between polls {} ms)",
+                                        g.spec.line(), g.fen, used / 1_000_000, r_ms, rec.max_poll_gap_ns / 1_000_000),
+                                    signature: "flag-fall".into(),
+                                });
+                            }
+                        } else {
+                            assumption_void += 1;
+                        }
+                    }
+                }
+            } else if let Some(mt) = g.spec.movetime {
+                tuples += 1;
+                let want = mt as u64 * 1_000_000;
+                if lim.soft_ns != want || lim.hard_ns != want {
+                    out.found.push(Found {
+                        class: "limit-movetime-not-as-given".into(),
+                        message: format!("`{}`: soft {} ns / hard {} ns, expected both {} ns", g.spec.line(), lim.soft_ns, lim.hard_ns, want),
+                        signature: "limit-movetime-not-as-given".into(),
+                    });
+                }
+            }
+        }
+    }
+    agg.add("c14.clock_tuples_checked", tuples);
+    agg.add("c14.flag_fall_searches_checked", flag_checked);
+    agg.add("c14.searches_outside_environment_assumption", assumption_void);
+    tuples
+}
+
+fn judge_c09_a(out: &mut OutcomeA) {
+    // World A sees "continued after stop" through the search records
+    for s in &out.searches {
+        if s.first_stop.is_some() && (s.calls_after_stop > 0 || s.nodes_after_stop > 0) {
+            out.found.push(Found {
+                class: "continued-after-stop".into(),
+                message: format!("search #{} went on for {} nodes after poll #{} had observed the stop", s.id, s.nodes_after_stop, s.first_stop.unwrap().0),
+                signature: "continued-after-stop".into(),
+            });
+            break;
+        }
+    }
+    out.found = retag_for_c09(std::mem::take(&mut out.found), usize::MAX);
+}
+
 // =================================================================================================
 // dispatch
 // =================================================================================================
@@ -202,6 +372,13 @@ pub fn run_c05(ctx: &Ctx, run: u64) -> RunReport {
 pub fn run_property(ctx: &Ctx, run: u64) -> RunReport {
     match ctx.property.as_str() {
         "C05" => run_c05(ctx, run),
+        "C04" => run_c04(ctx, run),
+        "C08" => run_c08(ctx, run),
+        "C09" => run_c09(ctx, run),
+        "C19" => run_c19(ctx, run),
+        "C13" => run_c13(ctx, run),
+        "C14" => run_c14(ctx, run),
+        "C12" => run_c12(ctx, run),
         other => {
             let mut r = RunReport { run, ..Default::default() };
             r.harness_errors.push(format!("no workload for property {other}"));
@@ -225,14 +402,65 @@ pub fn evaluate_scenario(ctx: &Ctx, scenario: &Scenario) -> RunReport {
     let mut rep = RunReport::default();
     match scenario {
         Scenario::A(sc) => {
-            let out = run_a(sc, false);
+            let mut out = run_a(sc, false);
+            judge_a(ctx, sc, &mut out, &mut rep.agg);
             absorb_a(ctx, &mut rep, sc, &out, true);
         }
         Scenario::B(sc) => {
-            let out = run_b(sc, &BOptions::default());
+            let mut out = run_b(sc, &BOptions { node_cap: NON_TERMINATION_NODES, keep_infos: 4 });
+            judge_b(ctx, sc, &mut out);
             absorb_b(ctx, &mut rep, sc, &out, true);
         }
-        _ => rep.harness_errors.push("scenario kind not supported yet".into()),
+        Scenario::T(sc) => {
+            let out = super::ttmodel::run_tt(sc);
+            rep.evaluations += 1;
+            rep.fingerprints.push((out.fingerprint, true));
+            found_to_report(ctx, &mut rep, &out.found, scenario, out.fingerprint);
+        }
+        Scenario::Pair { base, other, compare_from_newgame } => {
+            let a = run_a(base, false);
+            let b = run_a(other, false);
+            rep.evaluations += 2;
+            rep.fingerprints.push((b.fingerprint, true));
+            if let Some(e) = a.harness_error.clone().or(b.harness_error.clone()) {
+                rep.harness_errors.push(e);
+                return rep;
+            }
+            let ta = search_transcript(&a);
+            let tb = search_transcript(&b);
+            let ta_cmp: Vec<String> = if *compare_from_newgame {
+                let skip = a.gos.len() - b.gos.len().min(a.gos.len());
+                let mut seen = 0;
+                let mut idx = 0;
+                for (i, l) in ta.iter().enumerate() {
+                    if seen == skip {
+                        idx = i;
+                        break;
+                    }
+                    if l.starts_with("bestmove") {
+                        seen += 1;
+                        idx = i + 1;
+                    }
+                }
+                ta[idx..].to_vec()
+            } else {
+                ta
+            };
+            if ta_cmp != tb {
+                let at = tb.iter().zip(ta_cmp.iter()).position(|(x, y)| x != y).unwrap_or(tb.len().min(ta_cmp.len()));
+                let class = if *compare_from_newgame { "newgame-not-fresh" } else { "transcript-diff" };
+                rep.violations.push(FoundViolation {
+                    violation: Violation {
+                        property: ctx.property.clone(),
+                        class: class.into(),
+                        message: format!("line {at}: `{}` vs `{}`", ta_cmp.get(at).cloned().unwrap_or_else(|| "<none>".into()), tb.get(at).cloned().unwrap_or_else(|| "<none>".into())),
+                        signature: class.into(),
+                    },
+                    scenario: scenario.clone(),
+                    fingerprint: format!("{:016x}", b.fingerprint),
+                });
+            }
+        }
     }
     rep
 }
@@ -241,6 +469,1040 @@ pub fn evaluate_scenario(ctx: &Ctx, scenario: &Scenario) -> RunReport {
 pub fn scenario_of(ctx: &Ctx, run: u64) -> Option<Scenario> {
     match ctx.property.as_str() {
         "C05" => Some(Scenario::A(gen_c05(ctx, run))),
+        "C04" => Some(Scenario::B(gen_c04(ctx, run))),
+        "C13" => Some(Scenario::A(gen_c13(ctx, run))),
+        "C12" => {
+            let mut rng = Rng::derive(ctx.seed, run, "c12");
+            let initial_hash = *rng.pick(&[1usize, 1, 2, 3, 16]);
+            let (script, _) = gen_c12_script(&mut rng, ctx.thorough(), run % 3 == 2);
+            Some(Scenario::A(ScenarioA { script, knobs: Knobs { initial_hash_mb: Some(initial_hash), ..Knobs::default() }, clock_events: vec![], sched_seed: Rng::derive(ctx.seed, run, "c12.sched.base").next_u64(), schedule: None }))
+        }
+        "C14" => Some(Scenario::A(gen_c14(ctx, run))),
+        "C09" => Some(if run % 8 == 7 { Scenario::A(gen_c09_a(ctx, run)) } else { Scenario::B(gen_c09(ctx, run).base) }),
+        "C19" => Some(Scenario::T(super::ttmodel::gen_tt(&mut Rng::derive(ctx.seed, run, "c19"), ctx.thorough(), run))),
+        "C08" => Some(if run % 5 == 4 { Scenario::A(gen_c08_a(ctx, run)) } else { Scenario::B(gen_c08(ctx, run)) }),
         _ => None,
     }
+}
+
+// =================================================================================================
+// World B step generators (C04, C08, C09)
+// =================================================================================================
+
+/// A search limit for World B whose cost is bounded: depth limits, time limits that the simulated
+/// clock lets expire after a bounded number of nodes, or an "infinite" search stopped at poll k.
+fn gen_limit_b(rng: &mut Rng, white_to_move: bool, poll_interval: Option<u64>, tau_ps: u64, max_depth: u8) -> (GoSpec, Option<u64>, u64) {
+    let interval = poll_interval.unwrap_or(10_000);
+    match rng.weighted(&[62, 12, 12, 14]) {
+        0 => (gen_depth_go(rng, max_depth), None, 0),
+        1 => {
+            // movetime: expires after at most ~150 k nodes of simulated work
+            let max_ms = (150_000u128 * tau_ps as u128 / 1_000_000_000).max(1) as u64;
+            (GoSpec::movetime(rng.range(0, max_ms)), None, 0)
+        }
+        2 => {
+            let mut g = gen_clock_go(rng, white_to_move);
+            let max_ms = (400_000u128 * tau_ps as u128 / 1_000_000_000).max(2) as u64;
+            for t in [&mut g.wtime, &mut g.btime] {
+                if let Some(v) = t {
+                    *v = (*v).min(max_ms);
+                }
+            }
+            let overhead = if rng.chance(1, 3) { rng.range(0, 50) } else { 0 };
+            (g, None, overhead)
+        }
+        _ => {
+            // infinite (or depth 255), cancelled at poll k
+            let max_polls = (200_000 / interval).clamp(3, 400);
+            let k = rng.range(1, max_polls);
+            let mut g = GoSpec::infinite();
+            if rng.chance(1, 3) {
+                g = GoSpec::depth(255);
+            }
+            (g, Some(k), 0)
+        }
+    }
+}
+
+fn gen_step(rng: &mut Rng, poll_interval: Option<u64>, tau_ps: u64, max_depth: u8, mate_bias: bool) -> SearchStep {
+    let (fen, moves) = gen_position(rng, mate_bias);
+    let white = side_to_move_is_white(&fen, &moves);
+    let (go, stop_at_poll, move_overhead) = gen_limit_b(rng, white, poll_interval, tau_ps, max_depth);
+    let clock_events = if go.timed() { gen_clock_events(rng, 1, 3_000_000).into_iter().map(|mut e| { e.search = 0; e }).collect() } else { vec![] };
+    SearchStep {
+        fen: fen.unwrap_or_else(|| super::corpus::STARTPOS.to_string()),
+        moves,
+        go,
+        move_overhead,
+        stop_at_poll,
+        resize_mb: None,
+        reset: false,
+        clock_events,
+    }
+}
+
+// =================================================================================================
+// C04 — a search always answers with one legal move and never crashes
+// =================================================================================================
+
+pub fn gen_c04(ctx: &Ctx, run: u64) -> ScenarioB {
+    let mut rng = Rng::derive(ctx.seed, run, "c04");
+    let poll_interval = gen_poll_interval(&mut rng);
+    let tau_ps = gen_tau(&mut rng);
+    let initial_hash_mb = *rng.pick(&[0usize, 1, 1, 1, 2, 3, 4, 16]);
+    let profile = rng.weighted(&[if ctx.thorough() { 300 } else { 400 }, 1, 6]);
+    let mut steps = Vec::new();
+    match profile {
+        0 => {
+            // mixed session
+            let n = rng.range(1, 12);
+            let max_depth = if ctx.thorough() { 8 } else { 6 };
+            for _ in 0..n {
+                let mate_bias = rng.chance(1, 3);
+                let mut st = gen_step(&mut rng, poll_interval, tau_ps, max_depth, mate_bias);
+                if rng.chance(15, 100) {
+                    st.resize_mb = Some(*rng.pick(&[0usize, 0, 1, 1, 2, 3, 4, 8, 16, 64]));
+                }
+                if rng.chance(10, 100) {
+                    st.reset = true;
+                }
+                steps.push(st);
+            }
+        }
+        1 => {
+            // long session: the 8-bit generation counter wraps (several times in thorough)
+            let n = rng.range(258, if ctx.thorough() { 800 } else { 300 });
+            let positions: Vec<(Option<String>, Vec<String>)> = (0..6).map(|_| gen_position(&mut rng, false)).collect();
+            for _ in 0..n {
+                let (fen, moves) = rng.pick(&positions).clone();
+                steps.push(SearchStep {
+                    fen: fen.unwrap_or_else(|| super::corpus::STARTPOS.to_string()),
+                    moves,
+                    go: GoSpec::depth(rng.range(1, 2) as u8),
+                    move_overhead: 0,
+                    stop_at_poll: None,
+                    resize_mb: None,
+                    reset: false,
+                    clock_events: vec![],
+                });
+            }
+        }
+        _ => {
+            // deep: `go depth 255` / infinite on small endgames, cancelled after a bounded number of polls
+            let endgames: Vec<&str> = super::corpus::EXTRA.iter().copied().filter(|f| f.split(' ').next().unwrap().chars().filter(|c| c.is_alphabetic()).count() <= 5).collect();
+            for _ in 0..rng.range(1, 3) {
+                let fen = rng.pick(&endgames).to_string();
+                let moves = playout(Some(&fen), rng.range(0, 6) as usize, &mut rng);
+                let interval = poll_interval.unwrap_or(10_000);
+                steps.push(SearchStep {
+                    fen,
+                    moves,
+                    go: if rng.chance(1, 2) { GoSpec::depth(255) } else { GoSpec::infinite() },
+                    move_overhead: 0,
+                    stop_at_poll: Some((rng.range(100_000, 600_000) / interval).max(2)),
+                    resize_mb: None,
+                    reset: false,
+                    clock_events: vec![],
+                });
+            }
+        }
+    }
+    ScenarioB { initial_hash_mb, poll_interval, tau_ps, steps }
+}
+
+pub fn sample_b(sc: &ScenarioB, out: &OutcomeB) -> serde_json::Value {
+    json!({
+        "initial_hash_mb": sc.initial_hash_mb,
+        "poll_interval": sc.poll_interval,
+        "tau_ps": sc.tau_ps,
+        "searches": sc.steps.iter().take(8).map(|s| json!({
+            "fen": s.fen, "moves_played_before": s.moves.len(), "go": s.go.line(), "stop_at_poll": s.stop_at_poll,
+            "resize_mb": s.resize_mb, "reset": s.reset, "clock_faults": s.clock_events.len()})).collect::<Vec<_>>(),
+        "searches_total": sc.steps.len(),
+        "answers": out.steps.iter().take(8).map(|s| format!("{} -> bestmove {} ({} nodes, {} polls)", s.go, s.best, s.rec.max_nodes, s.rec.polls)).collect::<Vec<_>>(),
+    })
+}
+
+/// depth-limited searches at small depth must finish within this many nodes (two orders of
+/// magnitude above anything observed); everything else that exhausts a budget is inconclusive
+const NON_TERMINATION_NODES: u64 = 50_000_000;
+
+pub fn run_c04(ctx: &Ctx, run: u64) -> RunReport {
+    let mut rep = RunReport { run, ..Default::default() };
+    let sc = gen_c04(ctx, run);
+    let opts = BOptions { node_cap: NON_TERMINATION_NODES, keep_infos: 4 };
+    let mut out = run_b(&sc, &opts);
+    judge_b(ctx, &sc, &mut out);
+    let nontrivial = out.stats.searches > 0;
+    absorb_b(ctx, &mut rep, &sc, &out, nontrivial);
+    if sc.steps.len() > 255 {
+        rep.agg.add("probe.session_crossed_generation_wrap", 1);
+    }
+    if run % 499 == 0 {
+        rep.sample = Some(sample_b(&sc, &out));
+    }
+    rep
+}
+
+// =================================================================================================
+// C08 — reported lines are playable and mate announcements are true
+// =================================================================================================
+
+pub fn gen_c08(ctx: &Ctx, run: u64) -> ScenarioB {
+    let mut rng = Rng::derive(ctx.seed, run, "c08");
+    let poll_interval = gen_poll_interval(&mut rng);
+    let tau_ps = gen_tau(&mut rng);
+    let initial_hash_mb = *rng.pick(&[1usize, 1, 1, 2, 3, 16]);
+    let max_depth = if ctx.thorough() { 8 } else { 7 };
+    let mut steps = Vec::new();
+    // seeded prior history on related positions (same root, positions along a playout, stopped searches)
+    let (fen, moves) = gen_position(&mut rng, true);
+    let fen_s = fen.clone().unwrap_or_else(|| super::corpus::STARTPOS.to_string());
+    let prior = rng.range(0, 4);
+    for _ in 0..prior {
+        let mut st = if rng.chance(2, 3) {
+            // same game, a few plies earlier or later
+            let cut = rng.below(moves.len() as u64 + 1) as usize;
+            let mut m: Vec<String> = moves[..cut].to_vec();
+            m.extend(playout_from(&fen_s, &m, rng.range(0, 3) as usize, &mut rng));
+            let white = side_to_move_is_white(&fen, &m);
+            let (go, stop_at_poll, move_overhead) = gen_limit_b(&mut rng, white, poll_interval, tau_ps, 5);
+            SearchStep { fen: fen_s.clone(), moves: m, go, move_overhead, stop_at_poll, resize_mb: None, reset: false, clock_events: vec![] }
+        } else {
+            gen_step(&mut rng, poll_interval, tau_ps, 5, true)
+        };
+        if rng.chance(1, 10) {
+            st.resize_mb = Some(*rng.pick(&[1usize, 2, 3]));
+        }
+        steps.push(st);
+    }
+    // the monitored search: deeper, depth-limited or cancelled
+    let white = side_to_move_is_white(&fen, &moves);
+    let (go, stop_at_poll) = if rng.chance(4, 5) {
+        (GoSpec::depth(rng.range(3, max_depth as u64) as u8), None)
+    } else {
+        let (g, s, _) = gen_limit_b(&mut rng, white, poll_interval, tau_ps, max_depth);
+        (g, s)
+    };
+    steps.push(SearchStep { fen: fen_s, moves, go, move_overhead: 0, stop_at_poll, resize_mb: None, reset: false, clock_events: vec![] });
+    ScenarioB { initial_hash_mb, poll_interval, tau_ps, steps }
+}
+
+fn playout_from(fen: &str, moves: &[String], plies: usize, rng: &mut Rng) -> Vec<String> {
+    let Ok(g) = super::oracle::build_position(Some(fen), moves) else { return vec![] };
+    let f = g.to_fen();
+    // continue from the reached position; the caller appends to `moves`
+    let _ = f;
+    let mut game = g;
+    let mut out = Vec::new();
+    for _ in 0..plies {
+        let legal = game.moves();
+        if legal.is_empty() {
+            break;
+        }
+        let mv = legal[rng.below(legal.len() as u64) as usize];
+        let mut n = game.clone();
+        n.make_move(mv);
+        if n.moves().is_empty() {
+            break;
+        }
+        out.push(super::oracle::move_str(mv));
+        game = n;
+    }
+    out
+}
+
+pub fn run_c08(ctx: &Ctx, run: u64) -> RunReport {
+    let mut rep = RunReport { run, ..Default::default() };
+    // one run in five drives the monitor through the UCI text of a World A session instead
+    if run % 5 == 4 {
+        let mut c = ctx.clone();
+        c.property = "C08".into();
+        let sc = gen_c08_a(&c, run);
+        let out = run_a(&sc, false);
+        let nontrivial = out.gos.iter().any(|g| !g.infos.is_empty());
+        rep.agg.add("info_lines_checked", out.gos.iter().map(|g| g.infos.len() as u64).sum());
+        absorb_a(ctx, &mut rep, &sc, &out, nontrivial);
+        return rep;
+    }
+    let sc = gen_c08(ctx, run);
+    let out = run_b(&sc, &BOptions { node_cap: NON_TERMINATION_NODES, keep_infos: 4 });
+    let nontrivial = out.stats.infos > 0;
+    absorb_b(ctx, &mut rep, &sc, &out, nontrivial);
+    if run % 499 == 0 {
+        rep.sample = Some(sample_b(&sc, &out));
+    }
+    rep
+}
+
+/// World A flavour of the C08 workload: mate-rich positions, the lines are parsed from `info` text.
+pub fn gen_c08_a(ctx: &Ctx, run: u64) -> ScenarioA {
+    let mut rng = Rng::derive(ctx.seed, run, "c08a");
+    let mut krng = Rng::derive(ctx.seed, run, "c08a.knobs");
+    let knobs = gen_knobs(&mut krng);
+    let mut script = Vec::new();
+    for _ in 0..rng.range(1, 5) {
+        if rng.chance(1, 5) {
+            script.push(Intent::UciNewGame);
+        }
+        let (fen, moves) = gen_position(&mut rng, true);
+        script.push(Intent::Position { fen, moves });
+        match rng.below(4) {
+            0 => {
+                script.push(Intent::Go(GoSpec::infinite()));
+                script.push(Intent::WaitPolls(rng.range(1, 12)));
+                script.push(Intent::Stop);
+            }
+            _ => script.push(Intent::Go(GoSpec::depth(rng.range(2, 6) as u8))),
+        }
+        if rng.chance(1, 2) {
+            script.push(Intent::PlayBest);
+            script.push(Intent::Go(GoSpec::depth(rng.range(1, 5) as u8)));
+        }
+    }
+    script.push(Intent::WaitBestmove);
+    script.push(Intent::Quit);
+    ScenarioA { script, knobs, clock_events: vec![], sched_seed: Rng::derive(ctx.seed, run, "c08a.sched").next_u64(), schedule: None }
+}
+
+// =================================================================================================
+// C09 — stopping is safe at every instant (crash-point enumeration over the poll index)
+// =================================================================================================
+
+#[derive(Clone, Debug)]
+pub struct C09Plan {
+    pub base: ScenarioB,
+    /// index of the search that is cancelled
+    pub target: usize,
+    /// how the cancellation reaches the search: the flag (stop) or the clock (expired limit)
+    pub via_clock: bool,
+}
+
+pub fn gen_c09(ctx: &Ctx, run: u64) -> C09Plan {
+    let mut rng = Rng::derive(ctx.seed, run, "c09");
+    // one scenario in four runs with the shipped interval (exactly the property's quantifier), the
+    // others with the knob so that the stop also lands inside the first iteration
+    let poll_interval = if run % 4 == 0 { None } else { Some(*rng.pick(&[1u64, 7, 7, 50, 50, 200])) };
+    let tau_ps = gen_tau(&mut rng);
+    let initial_hash_mb = *rng.pick(&[1usize, 1, 2, 3, 16]);
+    // depth chosen so that the number of polls K stays enumerable
+    let target_depth: u8 = match poll_interval {
+        None => rng.range(5, if ctx.thorough() { 8 } else { 7 }) as u8,
+        Some(1) => rng.range(1, 2) as u8,
+        Some(7) => rng.range(2, 3) as u8,
+        Some(50) => rng.range(3, 4) as u8,
+        _ => rng.range(4, 5) as u8,
+    };
+    let mut steps = Vec::new();
+    // prior history that fills the tables
+    for _ in 0..rng.range(0, 3) {
+        steps.push(gen_step(&mut rng, poll_interval, tau_ps, 4, false));
+    }
+    let mate_bias = rng.chance(1, 3);
+    let (fen, moves) = gen_position(&mut rng, mate_bias);
+    let via_clock = rng.chance(1, 3);
+    let mut go = GoSpec::depth(target_depth);
+    if via_clock {
+        // a limit far in the future; the simulated clock is made to jump past it at poll k
+        go.movetime = Some(3_600_000);
+    }
+    let target = steps.len();
+    steps.push(SearchStep {
+        fen: fen.clone().unwrap_or_else(|| super::corpus::STARTPOS.to_string()),
+        moves: moves.clone(),
+        go,
+        move_overhead: 0,
+        stop_at_poll: None,
+        resize_mb: None,
+        reset: false,
+        clock_events: vec![],
+    });
+    // follow-up search on the same tables: same position, the position after a move, or another one
+    let mut follow = match rng.below(3) {
+        0 => {
+            let mut st = steps[target].clone();
+            st.go = GoSpec::depth(rng.range(1, (target_depth as u64 + 1).min(6)) as u8);
+            st
+        }
+        1 => {
+            let mut m = moves.clone();
+            m.extend(playout_from(&steps[target].fen, &moves, rng.range(1, 2) as usize, &mut rng));
+            SearchStep { moves: m, go: GoSpec::depth(rng.range(1, 5) as u8), ..steps[target].clone() }
+        }
+        _ => {
+            let mut st = gen_step(&mut rng, poll_interval, tau_ps, 4, false);
+            st.go = GoSpec::depth(rng.range(1, 4) as u8);
+            st.stop_at_poll = None;
+            st.clock_events.clear();
+            st
+        }
+    };
+    follow.stop_at_poll = None;
+    follow.clock_events.clear();
+    steps.push(follow);
+    C09Plan { base: ScenarioB { initial_hash_mb, poll_interval, tau_ps, steps }, target, via_clock }
+}
+
+/// The scenario with the cancellation placed at poll k of the target search.
+pub fn c09_with_k(plan: &C09Plan, k: u64) -> ScenarioB {
+    let mut sc = plan.base.clone();
+    if plan.via_clock {
+        sc.steps[plan.target].clock_events = vec![ClockEventS { search: 0, poll: k, fault: ClockFaultS::Jump { ns: 4_000_000_000_000 } }];
+    } else {
+        sc.steps[plan.target].stop_at_poll = Some(k);
+    }
+    sc
+}
+
+const C09_MAX_K: u64 = 160;
+
+pub fn run_c09(ctx: &Ctx, run: u64) -> RunReport {
+    let mut rep = RunReport { run, ..Default::default() };
+    // one run in eight delivers a real `stop` command through the UCI loop instead
+    if run % 8 == 7 {
+        let sc = gen_c09_a(ctx, run);
+        let out = run_a(&sc, false);
+        let nontrivial = out.searches.iter().any(|s| s.first_stop.is_some());
+        let mut o2 = out;
+        judge_a(ctx, &sc, &mut o2, &mut rep.agg);
+        absorb_a(ctx, &mut rep, &sc, &o2, nontrivial);
+        return rep;
+    }
+    let plan = gen_c09(ctx, run);
+    let opts = BOptions { node_cap: NON_TERMINATION_NODES, keep_infos: 2 };
+    // 1. unstopped reference run: K polls
+    let reference = run_b(&plan.base, &opts);
+    rep.evaluations += 1;
+    rep.fingerprints.push((reference.fingerprint, false));
+    rep.agg.absorb_b(&reference.stats);
+    if reference.harness_error.is_some() || reference.inconclusive.is_some() || !reference.found.is_empty() {
+        // the unstopped run itself misbehaves: that is C04/C08 territory; report what bears on C09
+        let mut r2 = reference;
+        judge_b(ctx, &plan.base, &mut r2);
+        let mut tmp = RunReport::default();
+        absorb_b(ctx, &mut tmp, &plan.base, &r2, false);
+        rep.violations.extend(tmp.violations);
+        rep.other_observations.extend(tmp.other_observations);
+        rep.inconclusive.extend(tmp.inconclusive);
+        rep.harness_errors.extend(tmp.harness_errors);
+        return rep;
+    }
+    let Some(target_rec) = reference.steps.iter().find(|s| s.index == plan.target) else {
+        rep.agg.add("probe.c09_target_skipped", 1);
+        return rep;
+    };
+    let k_total = target_rec.rec.polls;
+    rep.agg.add("c09.scenarios", 1);
+    rep.agg.add("c09.polls_of_unstopped_targets", k_total);
+    rep.agg.max("max.c09_polls_per_target", k_total);
+    // 2. every k = 1 … K (all of them up to the cap, evenly thinned beyond it)
+    let ks: Vec<u64> = if k_total <= C09_MAX_K {
+        (1..=k_total).collect()
+    } else {
+        rep.agg.add("c09.scenarios_with_thinned_enumeration", 1);
+        let mut v: Vec<u64> = (1..=64).collect();
+        let rest = C09_MAX_K - 64;
+        for j in 0..rest {
+            v.push(65 + j * (k_total - 65) / rest.max(1));
+        }
+        v.push(k_total);
+        v.sort();
+        v.dedup();
+        v
+    };
+    for k in ks {
+        let sc = c09_with_k(&plan, k);
+        let mut out = run_b(&sc, &opts);
+        rep.agg.add("c09.crash_points", 1);
+        // reach probes: where did the cancellation land?
+        if let Some(t) = out.steps.iter().find(|s| s.index == plan.target) {
+            if t.infos.is_empty() && t.rec.first_stop.is_some() || (t.rec.forced_at.is_some() && t.transcript.is_empty()) {
+                rep.agg.add("probe.cancelled_before_first_iteration_completed", 1);
+            }
+            if t.rec.forced_at.is_some() && t.rec.first_stop.is_none() {
+                rep.agg.add("probe.cancelled_between_iterations", 1);
+            }
+            if plan.via_clock && t.rec.first_stop.is_some() {
+                rep.agg.add("probe.cancelled_by_expired_limit", 1);
+            }
+        }
+        judge_b(ctx, &sc, &mut out);
+        absorb_b(ctx, &mut rep, &sc, &out, true);
+        if !rep.violations.is_empty() {
+            break;
+        }
+    }
+    if run % 211 == 0 {
+        rep.sample = Some(json!({
+            "target": plan.base.steps[plan.target].fen, "moves_before": plan.base.steps[plan.target].moves.len(),
+            "go": plan.base.steps[plan.target].go.line(), "poll_interval": plan.base.poll_interval, "via_clock": plan.via_clock,
+            "prior_searches": plan.target, "polls_of_unstopped_run_K": k_total, "follow_up": plan.base.steps[plan.target + 1].go.line(),
+        }));
+    }
+    rep
+}
+
+/// In the C09 workload a broken line or illegal move in the *follow-up* search is a C09 failure
+/// ("the shared tables remain usable").
+fn retag_for_c09(found: Vec<Found>, _target: usize) -> Vec<Found> {
+    found
+        .into_iter()
+        .map(|f| {
+            if class_bears_on(&f.class, "C08") {
+                Found { class: "followup-line".into(), message: format!("after a cancelled search: {}", f.message), signature: format!("followup-line {}", f.class) }
+            } else {
+                f
+            }
+        })
+        .collect()
+}
+
+/// World A flavour: a real `stop` command whose arrival poll is decided by the scheduler.
+pub fn gen_c09_a(ctx: &Ctx, run: u64) -> ScenarioA {
+    let mut rng = Rng::derive(ctx.seed, run, "c09a");
+    let mut krng = Rng::derive(ctx.seed, run, "c09a.knobs");
+    let knobs = gen_knobs(&mut krng);
+    let mut script = Vec::new();
+    for _ in 0..rng.range(1, 4) {
+        let (fen, moves) = gen_position(&mut rng, false);
+        script.push(Intent::Position { fen, moves });
+        script.push(Intent::Go(if rng.chance(1, 2) { GoSpec::infinite() } else { GoSpec::depth(rng.range(4, 6) as u8) }));
+        script.push(Intent::WaitPolls(rng.range(0, 25)));
+        script.push(Intent::Stop);
+        script.push(Intent::WaitBestmove);
+        // follow-up on the same tables
+        if rng.chance(1, 2) {
+            script.push(Intent::PlayBest);
+        }
+        script.push(Intent::Go(GoSpec::depth(rng.range(1, 4) as u8)));
+        script.push(Intent::WaitBestmove);
+    }
+    script.push(Intent::Quit);
+    ScenarioA { script, knobs, clock_events: vec![], sched_seed: Rng::derive(ctx.seed, run, "c09a.sched").next_u64(), schedule: None }
+}
+
+// =================================================================================================
+// C19 — the transposition table never confuses positions and keeps honest statistics
+// =================================================================================================
+
+pub fn run_c19(ctx: &Ctx, run: u64) -> RunReport {
+    use super::ttmodel;
+    let mut rep = RunReport { run, ..Default::default() };
+    if run % 10 == 9 {
+        // the table as real search sessions leave it: after reset / resize it must be empty
+        let mut c = ctx.clone();
+        c.property = "C04".into();
+        let mut sc = gen_c04(&c, run);
+        sc.steps.truncate(8);
+        for (i, st) in sc.steps.iter_mut().enumerate() {
+            if i % 2 == 1 {
+                if i % 4 == 1 {
+                    st.reset = true;
+                } else {
+                    st.resize_mb = Some([1usize, 2, 0, 3][(run as usize / 10 + i) % 4]);
+                }
+            }
+        }
+        let out = run_b(&sc, &BOptions { node_cap: NON_TERMINATION_NODES, keep_infos: 1 });
+        absorb_b(ctx, &mut rep, &sc, &out, out.stats.searches > 0);
+        return rep;
+    }
+    let mut rng = Rng::derive(ctx.seed, run, "c19");
+    let sc = ttmodel::gen_tt(&mut rng, ctx.thorough(), run);
+    let out = ttmodel::run_tt(&sc);
+    rep.evaluations += 1;
+    rep.fingerprints.push((out.fingerprint, out.ops >= 10));
+    rep.agg.add("executions.tt_history", 1);
+    rep.agg.add("tt.operations", out.ops);
+    for (k, v) in &out.probes {
+        rep.agg.add(&format!("probe.{k}"), *v);
+    }
+    found_to_report(ctx, &mut rep, &out.found, &Scenario::T(sc.clone()), out.fingerprint);
+    if run % 997 == 0 {
+        rep.sample = Some(json!({"initial_mb": sc.initial_mb, "operations": sc.ops.len(), "first_operations": sc.ops.iter().take(12).map(|o| format!("{o:?}")).collect::<Vec<_>>()}));
+    }
+    rep
+}
+
+// =================================================================================================
+// C13 — every advertised option value is accepted and survivable
+// =================================================================================================
+
+fn gen_pick(rng: &mut Rng) -> ValuePick {
+    // large tables cost real memory and time (Hash 1024 = 1 GB zero-filled): rare, but present
+    match rng.weighted(&[150, 200, 7, 7, 7, 590, 15, 24]) {
+        0 => ValuePick::Min,
+        1 => ValuePick::MinPlus(rng.range(1, 3) as i64),
+        2 => ValuePick::Default,
+        3 => ValuePick::Max,
+        4 => ValuePick::MaxMinus(rng.range(1, 3) as i64),
+        // interior, skewed towards the low end (table sizes cost memory)
+        5 => ValuePick::Fraction(rng.range(0, 30_000) as u32),
+        6 => ValuePick::Fraction(rng.range(0, 1_000_000) as u32),
+        _ => ValuePick::Fraction(rng.range(30_000, 130_000) as u32),
+    }
+}
+
+pub fn gen_c13(ctx: &Ctx, run: u64) -> ScenarioA {
+    let mut rng = Rng::derive(ctx.seed, run, "c13");
+    let mut krng = Rng::derive(ctx.seed, run, "c13.knobs");
+    let mut knobs = gen_knobs(&mut krng);
+    // the shipped default table in a few runs, a small one otherwise (the sessions set sizes anyway)
+    if rng.chance(1, 200) {
+        knobs.initial_hash_mb = None;
+    }
+    let mut script = vec![Intent::Uci];
+    let rounds = rng.range(1, 5);
+    let mut cur: (Option<String>, Vec<String>) = (None, vec![]);
+    for _ in 0..rounds {
+        // a burst of option changes, in seeded order, before the first / between searches
+        for _ in 0..rng.range(1, 4) {
+            script.push(Intent::SetSpin { name: format!("#{}", rng.below(8)), pick: gen_pick(&mut rng) });
+            if rng.chance(2, 3) {
+                script.push(Intent::IsReady);
+            }
+        }
+        if rng.chance(1, 6) {
+            script.push(Intent::UciNewGame);
+        }
+        if rng.chance(3, 4) {
+            let (fen, moves) = gen_position(&mut rng, false);
+            cur = (fen.clone(), moves.clone());
+            script.push(Intent::Position { fen, moves });
+        }
+        let white = side_to_move_is_white(&cur.0, &cur.1);
+        // timed searches run to their limit: keep them short in simulated time (and out of runs
+        // that poll at every node), so that Move Overhead matters without costing much
+        let fine_polls = matches!(knobs.poll_interval, Some(1) | Some(7));
+        let max_ms = (60_000u128 * knobs.tau_ps as u128 / 1_000_000_000).max(2) as u64;
+        let go = match rng.below(4) {
+            0 if !fine_polls => {
+                let mut g = gen_clock_go(&mut rng, white);
+                for t in [&mut g.wtime, &mut g.btime] {
+                    if let Some(v) = t {
+                        *v = (*v).min(max_ms * 2);
+                    }
+                }
+                g
+            }
+            1 if !fine_polls => GoSpec::movetime(rng.range(0, max_ms)),
+            _ => GoSpec::depth(rng.range(1, 4) as u8),
+        };
+        script.push(Intent::Go(go));
+        // sometimes the next option change comes right after bestmove (the scheduler decides
+        // whether the search thread has released the tables yet), sometimes after an isready
+        if rng.chance(1, 2) {
+            script.push(Intent::WaitBestmove);
+            script.push(Intent::IsReady);
+        }
+    }
+    script.push(Intent::WaitBestmove);
+    script.push(Intent::IsReady);
+    script.push(Intent::Quit);
+    ScenarioA { script, knobs, clock_events: vec![], sched_seed: Rng::derive(ctx.seed, run, "c13.sched").next_u64(), schedule: None }
+}
+
+pub fn run_c13(ctx: &Ctx, run: u64) -> RunReport {
+    let mut rep = RunReport { run, ..Default::default() };
+    let sc = gen_c13(ctx, run);
+    let mut out = run_a(&sc, false);
+    judge_a(ctx, &sc, &mut out, &mut rep.agg);
+    for o in &out.spin_options {
+        rep.agg.max(&format!("max.advertised.{}.max", o.name.replace(' ', "_")), o.max as u64);
+    }
+    let nontrivial = out.stats.searches > 0 && out.stats.probes.get("setoption_from_advertised_range").copied().unwrap_or(0) > 0;
+    absorb_a(ctx, &mut rep, &sc, &out, nontrivial);
+    if run % 499 == 0 {
+        let mut smp = sample_a(&sc, &out);
+        smp["commands_sent"] = json!(out.transcript.len());
+        rep.sample = Some(smp);
+    }
+    rep
+}
+
+// =================================================================================================
+// C14 — time allocation never exceeds what the clock allows
+// =================================================================================================
+
+const C14_R: [u64; 15] = [0, 1, 5, 10, 50, 99, 100, 150, 199, 200, 201, 500, 1_000, 60_000, 3_600_000];
+
+fn gen_c14_tuple(rng: &mut Rng, white_to_move: bool) -> (GoSpec, u64) {
+    // remaining time of the side to move
+    let r = if rng.chance(3, 4) { *rng.pick(&C14_R) } else { rng.range(0, 400_000) };
+    let inc = match rng.below(8) {
+        0 => None,
+        1 => Some(0),
+        2 => Some(1),
+        3 => Some(10),
+        4 => Some(100),
+        5 => Some(1_000),
+        6 => Some(10_000),
+        _ => Some(10 * r),
+    };
+    let mtg = match rng.below(9) {
+        0..=2 => None,
+        3 => Some(1),
+        4 => Some(2),
+        5 => Some(5),
+        6 => Some(40),
+        7 => Some(100),
+        _ => Some(1_000),
+    };
+    let overhead = match rng.below(6) {
+        0 | 1 => 0,
+        2 => 1.min(r / 2),
+        3 => 10.min(r / 2),
+        4 => (r / 2).min(1_000),
+        _ => rng.range(0, (r / 2).min(1_000)),
+    };
+    let mut g = GoSpec::default();
+    let opp = if rng.chance(1, 4) { None } else { Some(rng.range(0, 4_000_000)) };
+    let opp_inc = if rng.chance(1, 2) { None } else { Some(rng.range(0, 20_000)) };
+    if white_to_move {
+        g.wtime = Some(r);
+        g.btime = opp;
+        g.winc = inc;
+        g.binc = opp_inc;
+    } else {
+        g.btime = Some(r);
+        g.wtime = opp;
+        g.binc = inc;
+        g.winc = opp_inc;
+    }
+    // only the opponent's clock supplied: the side to move has "no time" (treated as 0)
+    if rng.chance(1, 25) && opp.is_some() {
+        if white_to_move {
+            g.wtime = None;
+        } else {
+            g.btime = None;
+        }
+    }
+    g.movestogo = mtg;
+    (g, overhead)
+}
+
+pub fn gen_c14(ctx: &Ctx, run: u64) -> ScenarioA {
+    let mut rng = Rng::derive(ctx.seed, run, "c14");
+    let mut script = Vec::new();
+    let flag_fall = run % 4 == 3;
+    let mut knobs = Knobs::default();
+    knobs.initial_hash_mb = Some(1);
+    knobs.policy = gen_policy(&mut rng);
+    let mut clock_events = Vec::new();
+    if !flag_fall {
+        // (1) limits invariant: many tuples per session, each search cancelled at once
+        knobs.poll_interval = Some(1);
+        knobs.tau_ps = 1_000_000;
+        let mut cur: (Option<String>, Vec<String>) = (None, vec![]);
+        for _ in 0..rng.range(8, 30) {
+            if rng.chance(1, 3) {
+                let (fen, moves) = gen_position(&mut rng, false);
+                cur = (fen.clone(), moves.clone());
+                script.push(Intent::Position { fen, moves });
+            }
+            let white = side_to_move_is_white(&cur.0, &cur.1);
+            if rng.chance(1, 8) {
+                script.push(Intent::SetOption { name: "Move Overhead".into(), value: "0".into() });
+                script.push(Intent::Go(GoSpec::movetime(*rng.pick(&[0u64, 1, 10, 100, 1_000, 60_000, 86_400_000]))));
+            } else {
+                let (g, overhead) = gen_c14_tuple(&mut rng, white);
+                script.push(Intent::SetOption { name: "Move Overhead".into(), value: overhead.to_string() });
+                script.push(Intent::Go(g));
+            }
+            script.push(Intent::Stop);
+            script.push(Intent::WaitBestmove);
+        }
+    } else {
+        // (2) return before flag fall, R >= 200 ms, under a slow / stalled search thread
+        knobs.tau_ps = gen_tau(&mut rng);
+        let mut n_search = 0;
+        let mut min_r = u64::MAX;
+        for _ in 0..rng.range(1, 3) {
+            let (fen, moves) = gen_position(&mut rng, false);
+            let white = side_to_move_is_white(&fen, &moves);
+            script.push(Intent::Position { fen, moves });
+            // keep the worst case (search runs to the hard limit) below ~600 k nodes
+            let max_r = (1_200_000u128 * knobs.tau_ps as u128 / 1_000_000_000).max(200) as u64;
+            let r = rng.range(200, max_r.max(201));
+            min_r = min_r.min(r);
+            let mut g = GoSpec::default();
+            let inc = if rng.chance(1, 2) { Some(*rng.pick(&[0u64, 10, 100, 1_000, 10_000])) } else { None };
+            if white {
+                g.wtime = Some(r);
+                g.winc = inc;
+                g.btime = Some(rng.range(0, 100_000));
+            } else {
+                g.btime = Some(r);
+                g.binc = inc;
+                g.wtime = Some(rng.range(0, 100_000));
+            }
+            g.movestogo = *rng.pick(&[None, None, Some(1u32), Some(2), Some(5), Some(40)]);
+            let overhead = if rng.chance(1, 2) { 0 } else { rng.range(0, (r / 2).min(1_000)) };
+            script.push(Intent::SetOption { name: "Move Overhead".into(), value: overhead.to_string() });
+            script.push(Intent::Go(g));
+            script.push(Intent::WaitBestmove);
+            n_search += 1;
+        }
+        // environment assumption: per-poll latency (interval * tau + stall) <= R/4
+        let budget_ns = min_r * 1_000_000 / 4;
+        let mut interval = gen_poll_interval(&mut rng).unwrap_or(10_000);
+        while (interval as u128 * knobs.tau_ps as u128 / 1000) as u64 > budget_ns / 2 && interval > 1 {
+            interval /= 2;
+        }
+        knobs.poll_interval = if interval == 10_000 { None } else { Some(interval) };
+        let per_poll = (interval as u128 * knobs.tau_ps as u128 / 1000) as u64;
+        let max_stall = budget_ns.saturating_sub(per_poll);
+        if max_stall > 10_000 && rng.chance(2, 3) {
+            for _ in 0..rng.range(1, 4) {
+                let fault = if rng.chance(1, 2) { ClockFaultS::Stall { ns: rng.range(1_000, max_stall) } } else { ClockFaultS::Jump { ns: rng.range(1_000, max_stall) } };
+                clock_events.push(ClockEventS { search: rng.below(n_search) as usize, poll: rng.range(1, 30), fault });
+            }
+        }
+    }
+    script.push(Intent::Quit);
+    ScenarioA { script, knobs, clock_events, sched_seed: Rng::derive(ctx.seed, run, "c14.sched").next_u64(), schedule: None }
+}
+
+pub fn run_c14(ctx: &Ctx, run: u64) -> RunReport {
+    let mut rep = RunReport { run, ..Default::default() };
+    let sc = gen_c14(ctx, run);
+    let mut out = run_a(&sc, false);
+    let tuples = judge_a(ctx, &sc, &mut out, &mut rep.agg);
+    let nontrivial = tuples > 0;
+    absorb_a(ctx, &mut rep, &sc, &out, nontrivial);
+    if run % 499 == 0 || run % 499 == 3 {
+        let mut smp = sample_a(&sc, &out);
+        smp["limits"] = json!(out.gos.iter().take(6).filter_map(|g| out.searches.get(g.ordinal).map(|r| format!("{} -> soft {} us hard {} us", g.spec.line(), r.limits.soft_ns / 1000, r.limits.hard_ns / 1000))).collect::<Vec<_>>());
+        rep.sample = Some(smp);
+    }
+    rep
+}
+
+// =================================================================================================
+// C12 — same state, same search; ucinewgame means a fresh engine
+// =================================================================================================
+
+/// Per-search transcripts: info/bestmove lines with `time` and `nps` removed.  `readyok` and error
+/// lines are not part of a search's transcript (their position relative to info lines depends on
+/// the schedule by design).
+pub fn search_transcript(out: &OutcomeA) -> Vec<String> {
+    out.transcript
+        .iter()
+        .filter(|l| l.starts_with("info ") || l.starts_with("bestmove"))
+        .map(|l| super::oracle::strip_time_fields(l))
+        .collect()
+}
+
+fn gen_c12_script(rng: &mut Rng, thorough: bool, with_newgame: bool) -> (Vec<Intent>, Option<usize>) {
+    let mut script = Vec::new();
+    let mut newgame_at = None;
+    if rng.chance(1, 3) {
+        script.push(Intent::SetOption { name: "Hash".into(), value: rng.pick(&["1", "2", "3", "4"]).to_string() });
+    }
+    let n = rng.range(2, if thorough { 9 } else { 6 });
+    let cut = if with_newgame { rng.range(1, n - 1) } else { u64::MAX };
+    for i in 0..n {
+        if i == cut {
+            newgame_at = Some(script.len());
+            script.push(Intent::UciNewGame);
+            if rng.chance(1, 4) {
+                script.push(Intent::SetOption { name: "Hash".into(), value: rng.pick(&["1", "2", "3"]).to_string() });
+            }
+        } else if rng.chance(1, 8) && !with_newgame {
+            script.push(Intent::UciNewGame);
+        }
+        if rng.chance(1, 4) && i > 0 && i != cut {
+            script.push(Intent::PlayBest);
+        } else {
+            let (fen, moves) = gen_position(rng, false);
+            script.push(Intent::Position { fen, moves });
+        }
+        let before_cut = with_newgame && i < cut;
+        if before_cut && rng.chance(1, 3) {
+            // prefixes are arbitrary: stopped and time-limited searches too
+            if rng.chance(1, 2) {
+                script.push(Intent::Go(GoSpec::infinite()));
+                script.push(Intent::WaitPolls(rng.range(0, 8)));
+                script.push(Intent::Stop);
+            } else {
+                script.push(Intent::Go(GoSpec::movetime(rng.range(0, 10))));
+            }
+        } else {
+            script.push(Intent::Go(gen_depth_go(rng, if thorough { 7 } else { 6 })));
+        }
+        if rng.chance(1, 3) {
+            script.push(Intent::IsReady);
+        }
+        script.push(Intent::WaitBestmove);
+    }
+    script.push(Intent::Quit);
+    (script, newgame_at)
+}
+
+fn env_knobs(rng: &mut Rng) -> (Knobs, Vec<ClockEventS>) {
+    let mut k = gen_knobs(rng);
+    k.initial_hash_mb = None; // set by the caller
+    let ev = gen_clock_events(rng, 4, 50_000_000);
+    (k, ev)
+}
+
+pub fn run_c12(ctx: &Ctx, run: u64) -> RunReport {
+    let mut rep = RunReport { run, ..Default::default() };
+    let mut rng = Rng::derive(ctx.seed, run, "c12");
+    let initial_hash = *rng.pick(&[1usize, 1, 2, 3, 16]);
+    let mut digest: u64 = 0;
+    if ctx.thorough() && run % 20_000 == 7 {
+        // (iii) bench twice under different clocks: equal node totals
+        let mut totals = Vec::new();
+        for e in 0..2u64 {
+            let mut er = Rng::derive(ctx.seed, run, &format!("c12.bench.{e}"));
+            let (mut knobs, ev) = env_knobs(&mut er);
+            knobs.initial_hash_mb = Some(1);
+            let sc = ScenarioA { script: vec![Intent::Raw("bench".into()), Intent::Quit], knobs, clock_events: ev, sched_seed: er.next_u64(), schedule: None };
+            let out = run_a(&sc, false);
+            let line = out.transcript.iter().find(|l| l.contains(" nodes ") && l.contains(" nps")).cloned().unwrap_or_default();
+            totals.push(line.split_whitespace().next().unwrap_or("").to_string());
+            absorb_a(ctx, &mut rep, &sc, &out, true);
+        }
+        rep.agg.add("c12.bench_pairs", 1);
+        if totals[0] != totals[1] || totals[0].is_empty() {
+            rep.violations.push(FoundViolation {
+                violation: Violation { property: "C12".into(), class: "bench-diff".into(), message: format!("bench node totals differ between two runs: {:?}", totals), signature: "bench-diff".into() },
+                scenario: Scenario::A(ScenarioA { script: vec![Intent::Raw("bench".into()), Intent::Quit], knobs: Knobs::default(), clock_events: vec![], sched_seed: 0, schedule: None }),
+                fingerprint: String::new(),
+            });
+        }
+        rep.digest = Some(super::rng::hash_str(&totals[0]));
+        return rep;
+    }
+    let newgame_mode = run % 3 == 2;
+    let (script, newgame_at) = gen_c12_script(&mut rng, ctx.thorough(), newgame_mode);
+    let n_env = if ctx.thorough() { 6 } else { 3 };
+    // base environment: plain clock, uniform scheduler, shipped interval
+    let base = ScenarioA {
+        script: script.clone(),
+        knobs: Knobs { initial_hash_mb: Some(initial_hash), ..Knobs::default() },
+        clock_events: vec![],
+        sched_seed: Rng::derive(ctx.seed, run, "c12.sched.base").next_u64(),
+        schedule: None,
+    };
+    let base_out = run_a(&base, false);
+    absorb_a(ctx, &mut rep, &base, &base_out, base_out.stats.searches > 0);
+    let base_t = search_transcript(&base_out);
+    for l in &base_t {
+        digest = super::rng::hash_bytes(digest.rotate_left(3), l.as_bytes());
+    }
+    rep.digest = Some(digest);
+    if base_out.harness_error.is_some() || base_out.inconclusive.is_some() {
+        return rep;
+    }
+    if !newgame_mode {
+        // (i) invariance under time, load and schedule
+        for e in 0..n_env {
+            let mut er = Rng::derive(ctx.seed, run, &format!("c12.env.{e}"));
+            let (mut knobs, ev) = env_knobs(&mut er);
+            knobs.initial_hash_mb = Some(initial_hash);
+            let other = ScenarioA { script: script.clone(), knobs, clock_events: ev, sched_seed: er.next_u64(), schedule: None };
+            let out = run_a(&other, false);
+            absorb_a(ctx, &mut rep, &other, &out, out.stats.searches > 0);
+            if out.harness_error.is_some() || out.inconclusive.is_some() {
+                continue;
+            }
+            // a `setoption Hash` that lost the try_lock race in one environment only changes the
+            // *state* the later searches start from: not comparable
+            if out.refused_setoptions != base_out.refused_setoptions {
+                rep.agg.add("c12.pairs_void_setoption_race", 1);
+                continue;
+            }
+            rep.agg.add("c12.environment_pairs_compared", 1);
+            let t = search_transcript(&out);
+            if t != base_t {
+                let at = t.iter().zip(base_t.iter()).position(|(a, b)| a != b).unwrap_or(t.len().min(base_t.len()));
+                rep.violations.push(FoundViolation {
+                    violation: Violation {
+                        property: "C12".into(),
+                        class: "transcript-diff".into(),
+                        message: format!(
+                            "the same depth-limited session gave different output under a different clock/schedule/load: line {at}: `{}` vs `{}`",
+                            base_t.get(at).cloned().unwrap_or_else(|| "<none>".into()),
+                            t.get(at).cloned().unwrap_or_else(|| "<none>".into())
+                        ),
+                        signature: "transcript-diff".into(),
+                    },
+                    scenario: Scenario::Pair { base: base.clone(), other: { let mut o = other.clone(); o.schedule = Some(out.schedule.clone()); o }, compare_from_newgame: false },
+                    fingerprint: format!("{:016x}", out.fingerprint),
+                });
+                break;
+            }
+        }
+    } else if let Some(at) = newgame_at {
+        // (ii) ucinewgame = fresh engine with the same effective options
+        // effective table size at the ucinewgame: the last Hash value set before it (if the engine
+        // did not refuse it) or the initial one; a Hash set right after ucinewgame applies to both
+        if base_out.refused_setoptions > 0 {
+            rep.agg.add("c12.pairs_void_setoption_race", 1);
+            return rep;
+        }
+        let mut eff = initial_hash;
+        for i in &script[..at] {
+            if let Intent::SetOption { name, value } = i {
+                if name == "Hash" {
+                    eff = value.parse().unwrap_or(eff);
+                }
+            }
+        }
+        let suffix: Vec<Intent> = script[at + 1..].to_vec();
+        // PlayBest in the suffix refers to searches of the suffix only if a go precedes it there
+        let mut er = Rng::derive(ctx.seed, run, "c12.fresh");
+        let (mut knobs, ev) = env_knobs(&mut er);
+        knobs.initial_hash_mb = Some(eff);
+        let fresh = ScenarioA { script: suffix.clone(), knobs, clock_events: ev, sched_seed: er.next_u64(), schedule: None };
+        let fresh_out = run_a(&fresh, false);
+        absorb_a(ctx, &mut rep, &fresh, &fresh_out, fresh_out.stats.searches > 0);
+        if fresh_out.harness_error.is_some() || fresh_out.inconclusive.is_some() || fresh_out.refused_setoptions > 0 {
+            return rep;
+        }
+        // the part of the base transcript that belongs to searches after the ucinewgame
+        let n_suffix_gos = fresh_out.gos.len();
+        let total_gos = base_out.gos.len();
+        let fresh_t = search_transcript(&fresh_out);
+        let skip_bestmoves = total_gos - n_suffix_gos.min(total_gos);
+        let mut seen = 0;
+        let mut idx = 0;
+        for (i, l) in base_t.iter().enumerate() {
+            if seen == skip_bestmoves {
+                idx = i;
+                break;
+            }
+            if l.starts_with("bestmove") {
+                seen += 1;
+                idx = i + 1;
+            }
+        }
+        let base_suffix_t: Vec<String> = base_t[idx..].to_vec();
+        rep.agg.add("c12.newgame_pairs_compared", 1);
+        if base_suffix_t != fresh_t {
+            let at2 = fresh_t.iter().zip(base_suffix_t.iter()).position(|(a, b)| a != b).unwrap_or(fresh_t.len().min(base_suffix_t.len()));
+            rep.violations.push(FoundViolation {
+                violation: Violation {
+                    property: "C12".into(),
+                    class: "newgame-not-fresh".into(),
+                    message: format!(
+                        "after ucinewgame the engine does not behave like a fresh one (Hash {eff}): line {at2} after the ucinewgame: `{}` vs fresh `{}`",
+                        base_suffix_t.get(at2).cloned().unwrap_or_else(|| "<none>".into()),
+                        fresh_t.get(at2).cloned().unwrap_or_else(|| "<none>".into())
+                    ),
+                    signature: "newgame-not-fresh".into(),
+                },
+                scenario: Scenario::Pair { base: { let mut b = base.clone(); b.schedule = Some(base_out.schedule.clone()); b }, other: { let mut o = fresh.clone(); o.schedule = Some(fresh_out.schedule.clone()); o }, compare_from_newgame: true },
+                fingerprint: format!("{:016x}", fresh_out.fingerprint),
+            });
+        }
+    }
+    if run % 499 == 0 || run % 499 == 2 {
+        let mut smp = sample_a(&base, &base_out);
+        smp["mode"] = json!(if newgame_mode { "ucinewgame vs fresh engine" } else { "invariance under environments" });
+        rep.sample = Some(smp);
+    }
+    rep
 }
